@@ -9567,9 +9567,11 @@ class Endfile_Stmt(StmtBase):  # R924
 
     @staticmethod
     def match(string):
-        if string[:7].upper() != "ENDFILE":
+        # The blank between END and FILE is optional (Fortran 2003, 3.3.1).
+        found = re.match(r"END\s*FILE", string, re.I)
+        if not found:
             return
-        line = string[7:].lstrip()
+        line = string[found.end() :].lstrip()
         if line.startswith("("):
             if not line.endswith(")"):
                 return
